@@ -11,6 +11,7 @@ import DebInspector.Props.C05
 import DebInspector.Props.C14
 import DebInspector.Props.C15
 import DebInspector.Props.C17
+import DebInspector.Props.C18
 import DebInspector.Props.C20
 
 open Proto
@@ -28,6 +29,7 @@ def dispatch (op : String) (v : Val) : Option Val :=
   | "C14e" => Props.C14.checkE.run v
   | "C15" => Props.C15.check.run v
   | "C15m" => Props.C15.checkM.run v
+  | "C18" => Props.C18.check.run v
   | "C20" => Props.C20.check.run v
   | "C20p" => Props.C20.checkPartial.run v
   | "C17a" => Props.C17.checkA.run v
